@@ -19,3 +19,4 @@ def run(ck):
     alloc.r11_broken_operand_not_dropped(ck, P)
     alloc.r12_region_storage_released_before_overwrite(ck, P, 'C15-R12')
     alloc.r13_allocation_size_in_wide_type(ck, P)
+    alloc.r14_parked_storage_released_on_every_exit(ck, P)
